@@ -133,7 +133,7 @@ func rawRecord(r *rand.Rand, typ byte, first byte, l int) []byte {
 	return rec
 }
 
-var pipeLens = []int{0, 1, 2, 5, 100, 4000, 16384, 16385, 16401, 16640}
+var pipeLens = []int{0, 1, 2, 5, 100, 4000, 16379, 16384, 16385, 16401, 16635, 16636, 16639, 16640}
 
 func runPipeScenario(r *rand.Rand, kr *keyring, w *ndWriter, idx int) {
 	s := newSealer(kr)
